@@ -190,18 +190,31 @@ def check_controller(mesh, case, top):
                                  'path(s) is %r' % (trav, [rows4(m) for m in mats], len(paths), wants))
                             break
                         prims = list(b.primitives())
-                        if len(prims) != len(src_prims) or b.skin is not skin:
-                            fail('bound', 'primitives', '%d bound primitives for %d primitives of the source geometry'
-                                 % (len(prims), len(src_prims)))
+                        # one bound primitive per primitive of the source geometry: same count, order, kinds
+                        # (empty primitives included) and, for the expected description, the generated kinds
+                        want_kinds = [type(sp).__name__ for sp in src_prims]
+                        got_kinds = [type(bp.primitive).__name__.replace('Bound', '') for bp in prims]
+                        gen_kinds = None
+                        g = next((x for x in top['geoms'] if x['id'] == case['source_geom']), None)
+                        if g is not None and all(isinstance(pr, dict) for pr in g['prims']):
+                            names = {'triangles': 'TriangleSet', 'lines': 'LineSet', 'polylist': 'Polylist', 'polygons': 'Polygons'}
+                            gen_kinds = [names[pr['kind']] for pr in g['prims']]
+                        if got_kinds != want_kinds or (gen_kinds is not None and got_kinds != gen_kinds) or b.skin is not skin \
+                                or [len(bp) for bp in prims] != [len(sp) for sp in src_prims]:
+                            fail('bound', 'primitives', 'bound primitives %r (lengths %r) for source primitives %r (lengths %r)'
+                                 % (got_kinds, [len(bp) for bp in prims], gen_kinds or want_kinds, [len(sp) for sp in src_prims]))
                             break
                         bad = False
                         for bp, sp in zip(prims, src_prims):
+                            if len(sp) == 0:
+                                continue
                             V = numpy.asarray(sp.vertex, dtype=numpy.float64)
                             W = numpy.asarray(wants[k], dtype=numpy.float64)
                             expv = V.dot(W[:3, :3].T) + W[:3, 3]
                             got = numpy.asarray(bp.primitive.vertex, dtype=numpy.float64)
                             if got.shape != expv.shape or not numpy.array_equal(got, expv) or len(bp) != len(sp) \
-                                    or not numpy.array_equal(numpy.asarray(bp.primitive.vertex_index), numpy.asarray(sp.vertex_index)):
+                                    or not numpy.array_equal(numpy.asarray(bp.primitive.vertex_index).reshape(-1),
+                                                             numpy.asarray(sp.vertex_index).reshape(-1)):
                                 fail('bound', 'primitives', 'traversal %d, path %d: a bound primitive is not the source '
                                      'primitive under path . bind_shape' % (trav, k))
                                 bad = True
